@@ -94,8 +94,10 @@ struct IfA : nop::Interface<IfA> {
   NOP_METHOD(Lookup, nop::Result<Err, std::string>(int key));
   NOP_METHOD(Scale, float(float f, Point p));
   NOP_METHOD(SumAll, int(std::vector<int> v));
+  NOP_METHOD(Ping, int());                 // no protocol arguments: the request is selector + empty tuple
+  NOP_METHOD(Version, std::string());
   NOP_METHOD(Unbound, int(int));
-  NOP_INTERFACE_API(Sum, Length, Match, Keys, Lookup, Scale, SumAll, Unbound);
+  NOP_INTERFACE_API(Sum, Length, Match, Keys, Lookup, Scale, SumAll, Ping, Version, Unbound);
 };
 struct If32 : nop::Interface<If32> {
   NOP_INTERFACE32("verif.rpc.If32");
@@ -219,6 +221,8 @@ static std::vector<CallOp> alphabet_a() {
   }
   // fungible / conforming substitutions: declared vector<int>, handler takes array<int,3>, caller passes array / vector
   ops.push_back({"SumAll(vector{1,2,3})", [](Conn& c) { return do_invoke<IfA::SumAll, int>(c, 6, eq_plain<int>, std::vector<int>{1, 2, 3}); }, "SumAll(1,2,3,)"});
+  ops.push_back({"Ping()", [](Conn& c) { return do_invoke<IfA::Ping, int>(c, 4711, eq_plain<int>); }, "Ping()"});
+  ops.push_back({"Version()", [](Conn& c) { return do_invoke<IfA::Version, std::string>(c, std::string("v1.2"), eq_plain<std::string>); }, "Version()"});
   ops.push_back({"SumAll(array{4,5,6})", [](Conn& c) { return do_invoke<IfA::SumAll, int>(c, 15, eq_plain<int>, std::array<int, 3>{{4, 5, 6}}); }, "SumAll(4,5,6,)"});
   return ops;
 }
@@ -237,6 +241,8 @@ static auto make_bindings_a() {
       }),
       IfA::Lookup::Bind([](int k) { g_log.push_back("Lookup(" + std::to_string(k) + ")"); return ref_lookup(k); }),
       IfA::Scale::Bind([](float f, Point p) { g_log.push_back("Scale(" + std::to_string(p.x) + "," + std::to_string(p.y) + ")"); return ref_scale(f, p); }),
+      IfA::Ping::Bind([]() { g_log.push_back("Ping()"); return 4711; }),
+      IfA::Version::Bind([]() { g_log.push_back("Version()"); return std::string("v1.2"); }),
       IfA::SumAll::Bind([](const std::array<int, 3>& v) { g_log.push_back("SumAll(" + istr(std::vector<int>(v.begin(), v.end())) + ")"); return v[0] + v[1] + v[2]; }));
 }
 
@@ -430,6 +436,8 @@ int main(int argc, char** argv) {
         {IfA::Lookup::Selector, args_sch<int>()},
         {IfA::Scale::Selector, args_sch<float, Point>()},
         {IfA::SumAll::Selector, args_sch<std::array<int, 3>>()},  // the handler (not the declaration) decides what is decoded
+        {IfA::Ping::Selector, args_sch<>()},
+        {IfA::Version::Selector, args_sch<>()},
     };
     explore_bad_requests<std::uint64_t>("lambda+fnptr", ops, [&](Conn& c) { serve_once(c, b); }, bound,
                                         {IfA::Unbound::Selector, 0, 1, IfA::Sum::Selector ^ 1, IfA::Sum::Selector & 0xffffffffULL});
